@@ -49,11 +49,19 @@ func tryReplay(eng *Engine, outDir, prop string, o *Obligation) (bool, string) {
 	cmd := exec.CommandContext(ctx, "go", "test", "-overlay", ovFile, "-vet=off", "-count=1", "-timeout", "60s", "-run", "^"+ent.Run+"$", "-v", ent.Pkg)
 	cmd.Dir = repo
 	cmd.Env = append(os.Environ(), "GOFLAGS=-mod=mod", "GOPROXY=off", "GOSUMDB=off", "GOTOOLCHAIN=local")
+	// the solver's counterexamples, projected onto the function's scalar and string parameters: the adapter
+	// tries them first (VERIF_MODEL_INPUTS = JSON list of {parameter: value}), then its own witnesses
+	if mi := modelInputs(o); mi != "" {
+		cmd.Env = append(cmd.Env, "VERIF_MODEL_INPUTS="+mi)
+	}
 	var buf bytes.Buffer
 	cmd.Stdout, cmd.Stderr = &buf, &buf
 	err = cmd.Run()
 	out := buf.String()
 	detail := fmt.Sprintf("go test -overlay (adapter %s, %s):\n%s", ent.File, ent.Run, firstLines(out, 60))
+	if mi := modelInputs(o); mi != "" {
+		detail = "model inputs handed to the adapter: " + mi + "\n" + detail
+	}
 	if err != nil && strings.Contains(out, "--- FAIL: "+ent.Run) {
 		return true, detail
 	}
@@ -98,4 +106,82 @@ func runAudits(outDir string) ([]map[string]interface{}, string) {
 		return recs, firstLines(out, 40)
 	}
 	return recs, ""
+}
+
+// modelInputs projects the models of an obligation's failed VCs onto the root function's parameters of
+// string, integer and boolean type (symbols k<n>_in_<param>): a JSON list with one object per model.
+func modelInputs(o *Obligation) string {
+	var all []map[string]interface{}
+	for _, vc := range o.Failed {
+		if vc.Verdict != "sat" {
+			continue
+		}
+		m := map[string]interface{}{}
+		lines := strings.Split(vc.Raw, "\n")
+		for i := 0; i+1 < len(lines); i++ {
+			l := strings.TrimSpace(lines[i])
+			if !strings.HasPrefix(l, "(define-fun k") || !strings.Contains(l, "_in_") || !strings.Contains(l, " () ") {
+				continue
+			}
+			f := strings.Fields(l)
+			if len(f) < 4 {
+				continue
+			}
+			name := f[1][strings.Index(f[1], "_in_")+4:]
+			val := strings.TrimSuffix(strings.TrimSpace(lines[i+1]), ")")
+			switch f[3] {
+			case "String":
+				if s, ok := smtStringLit(val); ok {
+					m[name] = s
+				}
+			case "Int":
+				val = strings.NewReplacer("(", "", ")", "", " ", "").Replace(val)
+				var n int64
+				if _, err := fmt.Sscan(val, &n); err == nil {
+					m[name] = n
+				}
+			case "Bool":
+				m[name] = val == "true"
+			}
+		}
+		if len(m) > 0 {
+			all = append(all, m)
+		}
+		if len(all) >= 8 {
+			break
+		}
+	}
+	if len(all) == 0 {
+		return ""
+	}
+	b, _ := json.Marshal(all)
+	return string(b)
+}
+
+// smtStringLit decodes an SMT-LIB string literal ("" is a quote, \u{h..} a code point).
+func smtStringLit(v string) (string, bool) {
+	v = strings.TrimSpace(v)
+	if len(v) < 2 || v[0] != '"' || v[len(v)-1] != '"' {
+		return "", false
+	}
+	v = strings.ReplaceAll(v[1:len(v)-1], `""`, `"`)
+	var sb strings.Builder
+	for i := 0; i < len(v); i++ {
+		if strings.HasPrefix(v[i:], "\\u{") {
+			if j := strings.Index(v[i:], "}"); j > 0 {
+				var cp int
+				if _, err := fmt.Sscanf(v[i+3:i+j], "%x", &cp); err == nil {
+					if cp < 256 {
+						sb.WriteByte(byte(cp))
+					} else {
+						sb.WriteRune(rune(cp))
+					}
+					i += j
+					continue
+				}
+			}
+		}
+		sb.WriteByte(v[i])
+	}
+	return sb.String(), true
 }
